@@ -17,6 +17,10 @@ pub trait MNode: BufMut {
     fn guards_ok(&self) -> bool {
         true
     }
+    /// the same description, taking the tree apart through the adapters' `into_inner()` / `*_mut()` accessors (after the last op)
+    fn describe_into(self: Box<Self>) -> String {
+        self.describe()
+    }
     /// `BufMut::put(src)` with `Self` = the concrete type (so overrides are used)
     fn put_buf(&mut self, src: tree::N);
     fn set_limit(&mut self, _n: usize) -> bool {
@@ -35,6 +39,40 @@ pub enum WOp<'a> {
     Slice(&'a [u8]),
     Bytes(u8, usize),
     Put(&'a str, &'a str, usize),
+}
+
+/// The same write as `put_slice(b)` through the raw entry points of a fixed-size target (whose `chunk_mut()` has no side effect):
+/// `UninitSlice::{write_byte, copy_from_slice, as_uninit_slice_mut, as_mut_ptr}` and range indexing, then `advance_mut`.
+/// Returns false (nothing done) when the slice does not fit the current chunk — the caller then takes the ordinary path, which panics.
+fn write_via_uninit<T: BufMut + ?Sized>(t: &mut T, b: &[u8]) -> bool {
+    let n = b.len();
+    {
+        let c = t.chunk_mut();
+        if n == 0 || c.len() < n {
+            return false;
+        }
+        match n % 4 {
+            0 => c[..n].copy_from_slice(b),
+            1 => {
+                for (i, x) in b.iter().enumerate() {
+                    c.write_byte(i, *x);
+                }
+            }
+            2 => {
+                let u = unsafe { c[0..n].as_uninit_slice_mut() };
+                for (i, x) in b.iter().enumerate() {
+                    u[i] = MaybeUninit::new(*x);
+                }
+            }
+            _ => {
+                let sub = &mut c[..=n - 1];
+                assert_eq!(sub.len(), n, "UninitSlice range indexing returned a slice of the wrong length");
+                unsafe { std::ptr::copy_nonoverlapping(b.as_ptr(), sub.as_mut_ptr(), n) };
+            }
+        }
+    }
+    unsafe { t.advance_mut(n) };
+    true
 }
 
 fn write_op_on<T: BufMut + ?Sized>(t: &mut T, op: &WOp) -> Option<()> {
@@ -130,6 +168,9 @@ impl MNode for MN {
     fn describe(&self) -> String {
         self.0.describe()
     }
+    fn describe_into(self: Box<Self>) -> String {
+        self.0.describe_into()
+    }
     fn guards_ok(&self) -> bool {
         self.0.guards_ok()
     }
@@ -194,6 +235,12 @@ impl MNode for SliceNode {
         fixed_state("slice", self.1, self.2, self.0.len()).1
     }
     fn write_op(&mut self, op: &WOp) -> Option<()> {
+        // every other slice write goes through the raw UninitSlice entry points instead of put_slice
+        if let WOp::Slice(b) = op {
+            if b.first().map_or(false, |x| x % 2 == 1) && write_via_uninit(&mut self.0, b) {
+                return Some(());
+            }
+        }
         write_op_on(&mut self.0, op)
     }
     fn put_buf(&mut self, src: tree::N) {
@@ -211,6 +258,12 @@ impl MNode for UninitNode {
         fixed_state("uninit", self.1, self.2, self.0.len()).1
     }
     fn write_op(&mut self, op: &WOp) -> Option<()> {
+        // every other slice write goes through the raw UninitSlice entry points instead of put_slice
+        if let WOp::Slice(b) = op {
+            if b.first().map_or(false, |x| x % 2 == 1) && write_via_uninit(&mut self.0, b) {
+                return Some(());
+            }
+        }
         write_op_on(&mut self.0, op)
     }
     fn put_buf(&mut self, src: tree::N) {
@@ -230,6 +283,12 @@ impl MNode for Chain<MN, MN> {
     fn describe(&self) -> String {
         format!("chain {} {}", self.first_ref().describe(), self.last_ref().describe())
     }
+    fn describe_into(mut self: Box<Self>) -> String {
+        let via_mut = format!("chain {} {}", Chain::first_mut(&mut *self).describe(), Chain::last_mut(&mut *self).describe());
+        let (a, b) = Chain::into_inner(*self);
+        let via_inner = format!("chain {} {}", a.0.describe_into(), b.0.describe_into());
+        if via_mut == via_inner { via_inner } else { format!("ACCESSORS-DISAGREE {} | {}", via_mut, via_inner) }
+    }
     fn guards_ok(&self) -> bool {
         self.first_ref().guards_ok() && self.last_ref().guards_ok()
     }
@@ -243,6 +302,12 @@ impl MNode for Chain<MN, MN> {
 impl MNode for Limit<MN> {
     fn describe(&self) -> String {
         format!("limit {} {}", self.limit(), self.get_ref().describe())
+    }
+    fn describe_into(mut self: Box<Self>) -> String {
+        let lim = Limit::limit(&*self);
+        let via_mut = format!("limit {} {}", lim, Limit::get_mut(&mut *self).describe());
+        let via_inner = format!("limit {} {}", lim, Limit::into_inner(*self).0.describe_into());
+        if via_mut == via_inner { via_inner } else { format!("ACCESSORS-DISAGREE {} | {}", via_mut, via_inner) }
     }
     fn guards_ok(&self) -> bool {
         self.get_ref().guards_ok()
@@ -426,12 +491,18 @@ pub fn run_case(desc: &str, ops: &[String]) {
     };
     println!("m {}", desc);
     println!("st {} g={}", t.describe(), t.guards_ok() as u8);
-    for op in ops {
+    for (k, op) in ops.iter().enumerate() {
         let w: Vec<&str> = op.split_whitespace().collect();
         println!("try {}", op);
         match catch_unwind(AssertUnwindSafe(|| exec(&mut t, &w))) {
             Ok(Some(r)) => {
                 println!("o {} -> {}", op, r);
+                if k + 1 == ops.len() {
+                    // after the last op the state is read by taking the adapters apart (into_inner, first_mut / last_mut, get_mut)
+                    let g = t.guards_ok() as u8;
+                    println!("st {} g={}", Box::new(t).describe_into(), g);
+                    return;
+                }
                 println!("st {} g={}", t.describe(), t.guards_ok() as u8);
             }
             Ok(None) => {
